@@ -143,13 +143,18 @@ type childPoint struct {
 	Label string `json:"l"`
 	Cost  int    `json:"c"`
 	Alt   int    `json:"a"`
-	// Shared: for a preemption point, whether the running thread's pending
-	// operation is on an object that more than one thread accessed in this
-	// execution. Preempting before an operation on a thread-local object is
-	// equivalent to preempting before that thread's next shared operation
-	// (local operations commute with every other thread), so it is not branched.
+	// Shared: for a preemption point, whether some other thread performs, later
+	// in this execution, an operation on the same object that conflicts with
+	// the running thread's pending operation (two operations conflict unless
+	// both only read). If none does, the pending operation commutes with
+	// everything the other threads still do, so preempting before it is
+	// equivalent to preempting before the running thread's next operation and
+	// is not branched (partial-order reduction on the recorded trace).
 	Shared bool `json:"s"`
 	obj    uintptr
+	seq    int
+	tid    int
+	write  bool
 }
 
 type childOut struct {
@@ -194,7 +199,12 @@ func (p *prefixChooser) ChooseThread(enabled []int, running int, labels []string
 	if cost == 0 {
 		runningObj = 0
 	}
-	return p.choose(len(enabled), sb.String(), cost, runningObj)
+	alt := p.choose(len(enabled), sb.String(), cost, runningObj)
+	if runningObj != 0 {
+		pt := &p.points[len(p.points)-1]
+		pt.seq, pt.tid, pt.write = sched.AccessSeq(), running, !sched.IsRead(labels[0])
+	}
+	return alt
 }
 
 func (p *prefixChooser) ChooseData(n int, label string) int { return p.choose(n, "data:"+label, 1, 0) }
@@ -377,8 +387,8 @@ func ChildMain(args []string) {
 		}
 		o := sched.Run(ch, 200000, bodies...)
 		for i := range ch.points {
-			if ch.points[i].obj != 0 {
-				ch.points[i].Shared = sched.SharedObject(ch.points[i].obj)
+			if pt := &ch.points[i]; pt.obj != 0 {
+				pt.Shared = sched.ConflictAfter(pt.seq, pt.tid, pt.obj, pt.write)
 			}
 		}
 		out.Points = ch.points
@@ -428,8 +438,8 @@ func schedOnce(sc scenario, l *rt.Ledger, prefix []int) (*prefixChooser, []strin
 	}
 	o := sched.Run(ch, 200000, bodies...)
 	for i := range ch.points {
-		if ch.points[i].obj != 0 {
-			ch.points[i].Shared = sched.SharedObject(ch.points[i].obj)
+		if pt := &ch.points[i]; pt.obj != 0 {
+			pt.Shared = sched.ConflictAfter(pt.seq, pt.tid, pt.obj, pt.write)
 		}
 	}
 	for id, p := range o.Panics {
@@ -591,7 +601,7 @@ type c36Case struct {
 
 func runChild(bin string, args ...string) (*childOut, string, error) {
 	cmd := exec.Command(bin, append([]string{"--child"}, args...)...)
-	cmd.Env = append(os.Environ(), "GOMAXPROCS=2", "GOGC=off")
+	cmd.Env = append(os.Environ(), "GOMAXPROCS=1")
 	var so, se bytes.Buffer
 	cmd.Stdout, cmd.Stderr = &so, &se
 	err := cmd.Run()
@@ -648,9 +658,11 @@ func runC36(env *mc.Env) {
 	defer os.RemoveAll(tmp)
 	ledger := prepareLedger(tmp)
 	scs := scenarios()
-	bound := mc.Pick(env, 1, 2)
-	nsc := mc.Pick(env, 5, len(scs))
-	env.R.Set("preemption_bound", bound)
+	bound := 1 // cold (one process per execution) preemption bound; bound 2 is ~10^5 processes per scenario
+	nsc := mc.Pick(env, 2, len(scs))
+	warmBound := mc.Pick(env, 1, 2)
+	env.R.Set("preemption_bound_cold", bound)
+	env.R.Set("preemption_bound_warm", warmBound)
 	var totalRuns, totalPoints atomic.Int64
 	completed := []string{}
 	warmCompleted := []string{}
@@ -684,7 +696,7 @@ func runC36(env *mc.Env) {
 			break
 		}
 		// warm phase: deeper bound, in-process (process-global caches warm, per-execution objects cold)
-		if wb := bound + 1; !env.Expired() {
+		if wb := warmBound; !env.Expired() && (!env.Thorough() || si < 4) {
 			if warmPhase(env, bin, tmp, si, sc, ledger, base, wb) {
 				warmCompleted = append(warmCompleted, fmt.Sprintf("%s<=%d", sc.Name, wb))
 			}
@@ -829,8 +841,8 @@ func warmPhase(env *mc.Env, bin, tmp string, si int, sc scenario, ledger string,
 	b, _ := json.Marshal(base)
 	os.WriteFile(basefile, b, 0o644)
 	secs := int(time.Until(env.Deadline).Seconds()) / 2
-	if secs > mc.Pick(env, 20, 240) {
-		secs = mc.Pick(env, 20, 240)
+	if secs > mc.Pick(env, 20, 300) {
+		secs = mc.Pick(env, 20, 300)
 	}
 	if secs < 3 {
 		return false
@@ -839,7 +851,7 @@ func warmPhase(env *mc.Env, bin, tmp string, si int, sc scenario, ledger string,
 	outs := make([]*warmOut, n)
 	mc.ParallelFor(env, n, func(k int) {
 		cmd := exec.Command(bin, "--child", "warm", strconv.Itoa(si), ledger, strconv.Itoa(bound), strconv.Itoa(k), strconv.Itoa(n), strconv.Itoa(secs), basefile)
-		cmd.Env = append(os.Environ(), "GOMAXPROCS=2")
+		cmd.Env = append(os.Environ(), "GOMAXPROCS=1")
 		var so, se bytes.Buffer
 		cmd.Stdout, cmd.Stderr = &so, &se
 		if err := cmd.Run(); err != nil {
@@ -933,7 +945,7 @@ func racePass(env *mc.Env, ledger string, nsc int) {
 		env.R.Set("race_pass", "skipped: no -race binary at "+raceBin)
 		return
 	}
-	reps := mc.Pick(env, 6, 40)
+	reps := mc.Pick(env, 4, 40)
 	type job struct{ si, rep, procs int }
 	var jobs []job
 	for si := 0; si < nsc; si++ {
@@ -1009,7 +1021,7 @@ func replayC36(env *mc.Env, raw json.RawMessage) (bool, string) {
 		b, _ := json.Marshal(base)
 		os.WriteFile(basefile, b, 0o644)
 		cmd := exec.Command(bin, "--child", "warmreplay", strconv.Itoa(c.Scenario), ledger, choicesArg(c.Choices), basefile)
-		cmd.Env = append(os.Environ(), "GOMAXPROCS=2")
+		cmd.Env = append(os.Environ(), "GOMAXPROCS=1")
 		var so, se bytes.Buffer
 		cmd.Stdout, cmd.Stderr = &so, &se
 		if err := cmd.Run(); err != nil {
